@@ -212,6 +212,7 @@ type Frame struct {
 type Token struct {
 	Value, Length uint64
 	Continued     bool
+	Pos           uint64
 }
 
 // Resp is a parsed response.
@@ -383,7 +384,7 @@ func Parse(body []byte) (*Resp, error) {
 			p.HaveTokens = true
 			n := int(rec.u32())
 			for i := 0; i < n && rec.err == nil; i++ {
-				p.Tokens = append(p.Tokens, Token{Value: rec.u64(), Length: rec.u64(), Continued: rec.u8() != 0})
+				p.Tokens = append(p.Tokens, Token{Value: rec.u64(), Length: rec.u64(), Continued: rec.u8() != 0, Pos: rec.u64()})
 			}
 			p.Covered = rec.u64()
 		case 'H':
